@@ -44,7 +44,8 @@ def run(opts):
     for lo in range(0, len(cases), 25000):
         part = cases[lo:lo + 25000]
         exp, skipped, states = vf.tlc_oracle("Oracle_AD", "Oracle_AD.cfg", part, chk.rundir)
-        chk.states += states
+        chk.states += states[0]
+        chk.transitions += states[1]
         chk.notes["oracle_overflow_skipped"] = chk.notes.get("oracle_overflow_skipped", 0) + skipped
         cpath = os.path.join(chk.rundir, "cases.ndjson")
         epath = os.path.join(chk.rundir, "exp.ndjson")
